@@ -30,8 +30,9 @@ PROPS = {
                 "the implementation alone ancestors / is_descendant_of / `e in a` via the evaluator / is_ancestor_of / `principal in X` via "
                 "is_authorized on all pairs against a reachability oracle over a harness-maintained spec parent graph, rejected <=> cyclic or "
                 "conflicting duplicate, enforce-accepted => closed and acyclic; non-trivial = >=2 ops and >=1 accepted; distinct by request text",
-        "theorems": ["enforce_exact", "enforce_reach", "from_enforce_closed", "repair_correct_partial", "repair_rejects_only_cycles",
-                     "add_inv_partial", "remove_inv", "upsert_inv_partial", "history_inv_partial", "in_iff_reach"],
+        "theorems": ["enforce_exact", "enforce_reach", "from_enforce_closed", "closure_correct_partial", "repair_correct_partial",
+                     "repair_rejects_only_cycles", "add_inv_partial", "remove_inv", "upsert_inv_partial", "op_preserves_partial",
+                     "history_inv_partial", "in_iff_reach", "in_iff_reach_history"],
         "assumptions": ["compute_tc's SCC internals (cyclic_tc) are modelled by their contract (saturation to a fixpoint), not mirrored",
                         "HashMap/HashSet iteration order is modelled by list order; observables are compared sorted",
                         "the wrapped TcError is private: its kind is read from the Debug form (HasCycle / MissingTcEdge)",
